@@ -74,6 +74,10 @@ def _prune_cache(keep=12):
         shutil.rmtree(d, ignore_errors=True)
 
 
+# design runs that must complete without a violation (anything else means the specification itself is wrong -> exit 2)
+MANDATORY_ROLES = ("intended", "liveness")
+
+
 def _run_family(fam, tier, seed, binp, work):
     C.copy_specs(work)
     # 1. design checks (exhaustive TLC on the specification)
@@ -84,16 +88,16 @@ def _run_family(fam, tier, seed, binp, work):
             res = C.design_check(work, d["module"], d["cfg"], overrides=ov, timeout=d.get("timeout_" + tier, 900),
                                  extra=d.get("extra", ()))
         except C.Inconclusive as e:
-            if d["role"] == "intended":
+            if d["role"] in MANDATORY_ROLES:
                 raise
             # the as-coded run only documents predicted deviations; it does not decide anything
             res = dict(transitions=0, states=0, depth=0, violated=[], complete=False, wall_s=0, cfg=d["cfg"], module=d["module"],
                        note="as-coded design run did not finish: " + str(e)[:120])
         res["role"] = d["role"]
         res["overrides"] = ov
-        if d["role"] == "intended" and res["violated"]:
+        if d["role"] in MANDATORY_ROLES and res["violated"]:
             raise C.Inconclusive("the intended specification violates %s - the specification is wrong" % res["violated"])
-        if d["role"] == "intended" and not res["complete"]:
+        if d["role"] in MANDATORY_ROLES and not res["complete"]:
             raise C.Inconclusive("design check did not complete: %s" % res)
         designs.append(res)
     # 2. behaviours: fixed regression behaviours + TLC simulation of the as-coded model
